@@ -76,6 +76,7 @@ Next == \/ /\ i <= Len(Tab.msgs)
            /\ i' = i + 1
         \/ /\ i = Len(Tab.msgs) + 1
            /\ \A j \in DOMAIN Tab.slots : Must(Tab.slots[j].m \in Known, [what |-> "file container member is not a known message", slot |-> Tab.slots[j]])
+           /\ \A j \in DOMAIN Tab.slots : Must(Tab.slots[j].gotype = Tab.slots[j].regtype, [what |-> "the struct type of a file container member resolves to the message number of another struct type", slot |-> Tab.slots[j]])
            /\ \A j \in DOMAIN Tab.sdk : CheckSdk(Tab.sdk[j])
            /\ i' = i + 1
 TSpec == Init /\ [][Next]_i
